@@ -1,9 +1,9 @@
 SPECIFICATION TraceSpec
 CONSTANTS
   ConfirmAfterFailedExec = FALSE
-  FeeWithoutSequence = FALSE
+  FeeWithoutSequence = TRUE
 CONSTRAINT Mark
 POSTCONDITION Accepted
-INVARIANTS IdsUnique RegWellFormed AuthenticatePure StoresConsistent NoCallsWhileInactive TrackOnlyAfterAuth TxIdsFresh ConfirmOnlyAfterExecution ChargedFeeConsumesSequence
+INVARIANTS IdsUnique RegWellFormed AuthenticatePure StoresConsistent NoCallsWhileInactive TrackOnlyAfterAuth TxIdsFresh ConfirmOnlyAfterExecution
 PROPERTIES OwnerOnly IdsIncrease IdsKept FrozenWhileInactive NeverTakenBack FailedTxKeepsNothing
 CHECK_DEADLOCK FALSE
